@@ -38,6 +38,8 @@ Init == phase = "gen" /\ o = [blocks |-> <<>>, sym |-> FALSE, labels |-> <<>>, r
 Next == phase = "gen" /\ \E x \in Objects : o' = x /\ phase' = "chk"
 Spec == Init /\ [][Next]_vars
 
+\* RP: the text of every object, for the harness to give to the real reader (`lc3v replay txt`)
+Emit == phase = "chk" => PrintT(<<"HIST", TxtWrite(o)>>)
 RoundTrip ==
   phase = "chk" => LET r == TxtRead(TxtWrite(o)) IN r.ok /\ View(r.obj) = View(o)
 \* escaping alone, on every source of the universe and all their prefixes
